@@ -403,17 +403,3 @@ Proof.
   apply (approx_le_opt_lemma A rs res vres Happ). apply (ve_optimal_lemma A rs order); auto.
 Qed.
 
-(* ---------- MOVE: the code as written misses the Pareto front on missing entries ---------- *)
-Theorem move_pareto_refuted_lemma : exists (A : list nat) (rs : list mo_rule) (order : list nat) (e : mo_entry) (a : list nat),
-  is_perm_seq (length A) order /\ In e (move A rs order) /\ inr A a /\
-  strictly_dominates (mo_payoff [0%Q; 0%Q] rs a) (fst e) = true.
-Proof.
-  exists [2; 2; 2], [ (([0; 1; 2], [0; 0; 1]), [((-1) # 1)%Q; ((-2) # 1)%Q]) ], [0; 1; 2],
-         ([((-1) # 1)%Q; ((-2) # 1)%Q], ([0; 1; 2], [0; 0; 1])), [0; 0; 0].
-  split; [|split; [|split]].
-  - split; [repeat constructor; cbn; intuition lia|].
-    intro i; cbn; split; [intuition lia|]. intro H. destruct i as [|[|[|i]]]; auto; lia.
-  - vm_compute. left. reflexivity.
-  - split; [reflexivity|]. intros [|[|[|i]]] Hi; cbn in *; lia.
-  - vm_compute. reflexivity.
-Qed.
